@@ -11,6 +11,7 @@ From Chess3 Require Export Model.BoardStreams.
 From Chess3 Require Export Spec.ChessJudge.
 From Chess3 Require Export Model.SeqStreams.
 From Chess3 Require Export Spec.SnapJudge.
+From Chess3 Require Export Spec.TpJudge.  (* C04, rule-level key of the transposition judge *)
 From Chess3 Require Export Model.TT Spec.TTSpec.
 From Chess3 Require Export Model.Hist Model.Picker Spec.PickerSpec.  (* C16 *)
 From Chess3 Require Export Model.PickerSession Spec.PickerSessionSpec.  (* C16, store sessions *)
